@@ -82,6 +82,17 @@ def assignments(fi):
     return out
 
 
+def unique_def(amap, name):
+    """the defining expression of `name` if every assignment to it has the same expression (same text in all branches)"""
+    ent = amap.get(name)
+    if not ent or any(v is None for _, v in ent):
+        return None
+    d0 = dump(ent[0][1])
+    if all(dump(v) == d0 for _, v in ent[1:]):
+        return ent[0][1]
+    return None
+
+
 class _Subst(ast.NodeTransformer):
     def __init__(self, amap, depth, stop=()):
         self.amap = amap
@@ -90,9 +101,9 @@ class _Subst(ast.NodeTransformer):
 
     def visit_Name(self, node):
         if isinstance(node.ctx, ast.Load) and node.id not in self.stop and self.depth > 0:
-            ent = self.amap.get(node.id)
-            if ent and len(ent) == 1 and ent[0][1] is not None:
-                v = copy.deepcopy(ent[0][1])
+            v0 = unique_def(self.amap, node.id)
+            if v0 is not None:
+                v = copy.deepcopy(v0)
                 return _Subst(self.amap, self.depth - 1, self.stop | {node.id}).visit(v)
         return node
 
